@@ -29,6 +29,7 @@ type c16In struct {
 	Fail      int   `json:"fail"`
 	Finally   int   `json:"finally"`
 	ErrListenerMS int `json:"err_listener_ms,omitempty"` // >0: the body registers an error listener that takes this long
+	StopAt    int   `json:"stop_at,omitempty"` // >0: the body stops its own scope (no error) before step stop_at-1
 	Second    bool  `json:"second,omitempty"` // a second try block (succeeding body, success + finally handlers) follows in the same scope
 }
 
@@ -51,6 +52,9 @@ func c16Gen(r *Rand, tier string) interface{} {
 	h := func() int { return []int{0, 1, 1, 1, 2, 3}[r.Intn(6)] }
 	in.Success, in.Fail, in.Finally = h(), h(), h()
 	in.Second = r.Chance(1, 4)
+	if in.FailAt < 0 && r.Chance(1, 6) {
+		in.StopAt = 1 + r.Intn(in.Steps+1)
+	}
 	return in
 }
 
@@ -63,6 +67,9 @@ func (in *c16In) body() string {
 	for k := 0; k <= in.Steps; k++ {
 		if k == in.FailAt {
 			sb.WriteString("fail --id=b\n")
+		}
+		if k+1 == in.StopAt {
+			sb.WriteString("stopscope --id=b\n")
 		}
 		for j, pos := range in.Nested {
 			if pos == k {
